@@ -327,9 +327,24 @@ def run_check(pid, modname, tier, seed, level_note=""):
     if nproc == 1 or len(jobs) == 1:
         results = [_run_job(a) for a in args]
     else:
+        # wall-clock budget for the whole check: a check that cannot finish is inconclusive (exit 3), it never hangs
+        budget = float(os.environ.get("BBVERIF_BUDGET_S", "0")) or (1500.0 if tier == "quick" else 4 * 3600.0)
         ctx = mp.get_context("fork")
         with ctx.Pool(nproc, maxtasksperchild=1) as pool:
-            results = pool.map(_run_job, args, chunksize=1)
+            pending = [(a, pool.apply_async(_run_job, (a,))) for a in args]
+            results = []
+            for a, h in pending:
+                left = budget - (time.time() - t0)
+                try:
+                    results.append(h.get(timeout=max(left, 1.0)))
+                except mp.TimeoutError:
+                    jname = jobs[a[1]][0]
+                    j = Job(pid, jname, tier, seed)
+                    j.errors.append(f"{jname}: not finished within the check's wall-clock budget of {budget:.0f}s (inconclusive)")
+                    out = j.export()
+                    out["wall"] = time.time() - t0
+                    results.append(out)
+            pool.terminate()
     wall = time.time() - t0
     return finish(pid, tier, seed, results, wall, mod)
 
